@@ -47,6 +47,27 @@ pub struct Client {
 /// is there a LISTEN socket on this TCP port that belongs to this very process? (an ephemeral port that this socket
 /// released may be handed to any other process of the machine at any time)
 fn listening_here(port: u16) -> bool {
+    listeners(port).0
+}
+/// (a LISTEN socket on this port belongs to this process, a LISTEN socket on this port belongs to somebody else)
+fn listeners(port: u16) -> (bool, bool) {
+    let inodes = listen_inodes(port);
+    if inodes.is_empty() {
+        return (false, false);
+    }
+    let mut mine: Vec<String> = vec![];
+    if let Ok(d) = std::fs::read_dir("/proc/self/fd") {
+        for e in d.flatten() {
+            if let Ok(l) = std::fs::read_link(e.path()) {
+                mine.push(l.to_string_lossy().to_string());
+            }
+        }
+    }
+    let ours = inodes.iter().any(|i| mine.iter().any(|l| *l == format!("socket:[{}]", i)));
+    let foreign = inodes.iter().any(|i| !mine.iter().any(|l| *l == format!("socket:[{}]", i)));
+    (ours, foreign)
+}
+fn listen_inodes(port: u16) -> Vec<String> {
     let mut inodes: Vec<String> = vec![];
     for f in ["/proc/net/tcp", "/proc/net/tcp6"] {
         if let Ok(t) = std::fs::read_to_string(f) {
@@ -62,20 +83,7 @@ fn listening_here(port: u16) -> bool {
             }
         }
     }
-    if inodes.is_empty() {
-        return false;
-    }
-    if let Ok(d) = std::fs::read_dir("/proc/self/fd") {
-        for e in d.flatten() {
-            if let Ok(l) = std::fs::read_link(e.path()) {
-                let l = l.to_string_lossy().to_string();
-                if inodes.iter().any(|i| l == format!("socket:[{}]", i)) {
-                    return true;
-                }
-            }
-        }
-    }
-    false
+    inodes
 }
 
 /// SO_LINGER {on, 0}: closing sends RST instead of FIN
@@ -324,7 +332,10 @@ pub async fn run_net_scenario(sc: &Value, workdir: &str) -> Vec<Value> {
                     if let Some(hp) = text.strip_prefix("tcp://") {
                         if let Some(addr) = std::net::ToSocketAddrs::to_socket_addrs(hp).ok().and_then(|mut a| a.next()) {
                             let c = std::net::TcpStream::connect_timeout(&addr, Duration::from_millis(300));
-                            after = if c.is_ok() && listening_here(addr.port()) { "accepted".into() } else { "refused".into() };
+                            // the connect was accepted by whatever listened on the port at that instant. It was this socket's
+                            // own listener unless somebody else has bound the port meanwhile and is listening there now (our own
+                            // listener may well have gone by the time /proc is read: that does not clear it)
+                            after = if c.is_ok() && !listeners(addr.port()).1 { "accepted".into() } else { "refused".into() };
                         }
                     } else if let Some(path) = text.strip_prefix("ipc://") {
                         after = if std::os::unix::net::UnixStream::connect(path).is_ok() { "accepted".into() } else { "refused".into() };
